@@ -623,11 +623,13 @@ fn tcp<T: S14>(ty: Ty, bytes: &[u8], chunks: &[u16], pages: u8, ctx: &mut Ctx) {
                 // a reader that lags: the output is left with 1-3 free slots (or drained) before
                 // each call; calls are made only while bytes are certainly queued
                 let mut calls = 0usize;
-                while client_rx_queue(client_port, port).unwrap_or(0) > 0 && calls < 400 {
+                while client_rx_queue(client_port, port).unwrap_or(0) > 0 && calls < 60 {
                     calls += 1;
                     let cap = outp.capacity();
                     let free = cap - outp.available();
-                    let target = if calls % 3 == 0 { cap } else { 1 + (calls + ci) % 3 };
+                    // the output is only ever freed when it is full: by 1-3 slots, now and then
+                    // by half
+                    let target = if free == 0 && calls % 7 == 0 { cap / 2 } else { 1 + (calls + ci) % 3 };
                     if free < target {
                         outp.drain(target - free);
                     }
